@@ -125,6 +125,16 @@ pub fn run(o: &Opts) -> Report {
         rep.case(&format!("colons {}", text.len()), true);
         guarded(&mut rep, "parse_block4_fields", 0, "colons-only", text, move || swift_mt_message::parser::parse_block4_fields(&t3).map(|m| m.len()));
     }
+    // tiny and quote-only texts through the plugin handlers (they strip quotes and escapes before parsing)
+    for text in ["", "\"", "\"\"", " \" \r\n", "\"\\", "\\", "\\\"", "'", "{", "}", "{1:", "\"{1:F01", "\n", "\"\n\""] {
+        rep.case(&format!("plugin-tiny {}", text.len()), true);
+        let p1 = std::panic::AssertUnwindSafe(&plugins);
+        let t1 = text.to_string();
+        guarded(&mut rep, "plugin parse_mt", 0, "tiny", text, move || p1.parse(&t1).is_ok());
+        let p2 = std::panic::AssertUnwindSafe(&plugins);
+        let t2 = text.to_string();
+        guarded(&mut rep, "plugin validate_mt", 0, "tiny", text, move || p2.validate(&t2).is_ok());
+    }
     let grammars = mgen::load_grammars();
     let pool = mgen::build_pool(if o.thorough() { 4 } else { 1 });
     let per_type = if o.thorough() { 12 } else { 2 };
